@@ -14,7 +14,7 @@ TECHNIQUE = "Hypothesis-generated parameter sets and screens; metamorphic relati
 RULE = (
     "both shipped sample types with finite parameters up to 1e6 in magnitude, arity-2 screens on a shared mapping with control in either/both "
     "columns, duplicate rows, any row order; a boolean sub-selection, a row permutation, the column-swapped screen, the arity-1 twin; the "
-    "stacked/averaged helpers on 1..4 samples; NaN parameters must make the helpers raise. Non-trivial = screen has a control in each column "
+    "stacked/averaged helpers on 1..4 samples; NaN parameters must make the helpers raise; for the interaction type the first sample's single-effect table is then updated in place (as the model does on new data) and the same screen and subset objects are predicted again. Non-trivial = screen has a control in each column "
     "somewhere and at least one true combination. distinct = distinct case JSON."
 )
 ASSUMPTIONS = [
@@ -205,6 +205,28 @@ def check_case(case):
                         require(_close(np.asarray(theta.predict_conditional_mean(one.subset(half)), dtype=float), got[half]), "mean.subset.arity1", "arity-1 prediction on a subset differs from the whole-screen entries")
             msg = _unchanged(theta, screen, snap)
             require(msg is None, "purity", lambda: msg)
+
+        if kind != "additive" and case["thetas"][0]["table"]:
+            # the single-effect table of a sample is the model's own dict, which the model updates IN PLACE when it receives
+            # further observations: the same screen / subset objects predicted again must follow the table as it is now
+            p0, theta0 = case["thetas"][0], holder.thetas[0]
+            sub = screen.subset(sel) if sel.any() else None
+            theta0.predict_viability(screen)
+            if sub is not None:
+                theta0.predict_viability(sub)
+            tab2 = {(int(c), int(t)): (float(x) if int(t) == -1 else float(np.clip(1.02 - float(x), 0.02, 1.0))) for c, t, x in p0["table"]}
+            theta0.single_effect_lookup.update(tab2)
+            mean0 = np.asarray(theta0.predict_conditional_mean(screen), dtype=float)
+            se2 = np.array([tab2[(int(s_), int(a_))] * tab2[(int(s_), int(b_))] for s_, (a_, b_) in zip(sid, tid)])
+            exp2 = np.clip(np.exp(mean0) * np.clip(se2, 0.01, 0.99), 0.01, 0.99)
+            via2 = np.asarray(theta0.predict_viability(screen), dtype=float)
+            require(_close(via2, exp2, rtol=1e-9), "viability.follows_updated_table", lambda: "after the sample's single-effect table was updated in place, viability on the same screen object is %r, exp(mean)*clip(single effects) with the current table %r" % (via2.tolist(), exp2.tolist()))
+            if sub is not None:
+                got = np.asarray(theta0.predict_viability(sub), dtype=float)
+                require(_close(got, exp2[sel], rtol=1e-9), "viability.follows_updated_table.subset", "after the table was updated in place, viability on the same subset object does not follow the current table")
+            stacked = np.asarray(mm.predict_viability_all(screen=screen, thetas=holder), dtype=float)
+            if not np.isnan(stacked).any():
+                require(_close(stacked[0], exp2, rtol=1e-9), "viability_all.follows_updated_table", "predict_viability_all row 0 does not follow the sample's current table")
 
         # stacked / averaged helpers
         for name, all_f, avg_f, one_f in (
